@@ -155,7 +155,7 @@ pub fn check_case(c: &FrameCase, q: &QRCode) -> (Vec<(String, String)>, Option<G
 }
 
 fn symbol(v: usize) -> Option<Box<QRCode>> {
-    match subject::build(b"C18", &Opts { mode: None, ecl: Some(0), version: Some(v as u8), mask: Some(0) }) {
+    match subject::build(b"C18", &Opts { mode: None, ecl: Some(0), version: Some(v as u8), mask: Some(0), order: 0 }) {
         Outcome::Ok(q) => Some(q),
         _ => None,
     }
